@@ -26,6 +26,13 @@ def units(rng, tier):
             a = rng.choice(["ff", "ffd", "bf", "bfd", "bc"])
             u = pack_unit(a, C, v, rng, fmt=rng.choice(gen.FORMATS), out=rng.choice(OUTS), cmp="eq", family="oversize")
             us.append(u)
+    # integers beyond 2^53 that exceed the bin size by one unit: the refusal must rest on exact integer comparison
+    for _ in range(40 if tier == "quick" else 400):
+        C = rng.choice([2 ** 53, 10 ** 16, 2 ** 60, 10 ** 18 + 1, 2 ** 53 + 2])
+        v = [rng.randint(1, 9) for _ in range(rng.randint(0, 4))]
+        v.insert(rng.randrange(len(v) + 1), C + rng.choice([1, 1, 2, 3]))
+        a = rng.choice(["ff", "ffd", "bf", "bfd", "bc"])
+        us.append(pack_unit(a, C, v, rng, fmt=rng.choice(["list", "dict_str", "names_valueof"]), out=rng.choice(OUTS), cmp="eq", family="oversize-by-one-beyond-2^53"))
     # CBLDM argument validation
     for _ in range(90 if tier == "quick" else 900):
         vals, fam = gen.values(rng, nmax=6)
